@@ -283,6 +283,78 @@ def run_value_symmetry(P, rep, rule="R-MIRROR.value"):
             rep.viol(rule, nm, P.where(fn), "lhs is asked %s but rhs %s: the function cannot be symmetric" % (sorted(asked[1]), sorted(asked[2])))
         else:
             rep.ok(rule, nm, P.where(fn), "both operands are queried with %s" % sorted(set(asked[1])))
+        if nm != "value_cmp":
+            continue
+        # ordering must be dual: the array/object views obtained from the two operands are consumed alike
+        side_of_view = {}
+        for bi, t in P.calls(fn):
+            f = t.get("f")
+            if f and f.get("trait", "").endswith("ValueView") and f["id"].rsplit("::", 1)[1] in ("as_array", "as_object", "as_scalar"):
+                ol = op_local(t["args"][0])
+                o = so.place_origin([ol[0], ol[1]]) if ol else None
+                if o and o[0] in (1, 2):
+                    side_of_view[t["d"][0]] = o[0]
+        from origins import backward_slice
+        from mirutil import defs_of
+
+        def view_side(local, depth=12):
+            """Which operand's view a local holds: follows moves, tuple-field reads of (view1, view2) aggregates and Some-payload reads."""
+            cur = local
+            for _ in range(depth):
+                if cur in side_of_view:
+                    return side_of_view[cur]
+                ds = defs_of(fn, cur)
+                if len(ds) != 1 or ds[0][0] != "a":
+                    return None
+                d = ds[0][3]
+                pl = None
+                if d["k"] in ("use", "cast"):
+                    ol2 = op_local(d["o"])
+                    pl = [ol2[0], ol2[1]] if ol2 else None
+                elif d["k"] == "ref":
+                    pl = d["p"]
+                if pl is None:
+                    return None
+                base, proj = pl
+                fidx = [p_[1] for p_ in proj if p_[0] == "f"]
+                bds = defs_of(fn, base)
+                if fidx and len(bds) == 1 and bds[0][0] == "a" and bds[0][3]["k"] == "agg" and bds[0][3].get("ak") == "tuple":
+                    ops = bds[0][3]["ops"]
+                    k = fidx[0]
+                    o3 = op_local(ops[k]) if k < len(ops) else None
+                    if not o3:
+                        return None
+                    cur = o3[0]
+                    continue
+                cur = base
+            return None
+        used = {1: [], 2: []}
+        for body, org in so.all_bodies():
+            for bi, t in P.calls(body):
+                f = t.get("f")
+                if not f or not f.get("trait", "").endswith(("ObjectView", "ArrayView")) or not t["args"]:
+                    continue
+                if body is not fn:
+                    # closures: receiver captured from the parent; attribute by the upvar's source local
+                    continue
+                ol = op_local(t["args"][0])
+                sd = view_side(ol[0]) if ol else None
+                if sd in (1, 2):
+                    used[sd].append(f["id"].rsplit("::", 1)[1])
+        closure_view_calls = []
+        for body, org in so.all_bodies():
+            if body is fn:
+                continue
+            for bi, t in P.calls(body):
+                f = t.get("f")
+                if f and f.get("trait", "").endswith(("ObjectView", "ArrayView")):
+                    closure_view_calls.append(f["id"].rsplit("::", 1)[1])
+        if sorted(used[1]) != sorted(used[2]) or any(c in ("get", "contains_key") for c in closure_view_calls):
+            rep.viol(rule, "value_cmp duality", P.where(fn),
+                     "the two operands' array/object views are consumed differently (lhs %s, rhs %s, in closures %s): cmp(a,b) and cmp(b,a) are not mirror images"
+                     % (sorted(used[1]), sorted(used[2]), sorted(closure_view_calls)))
+        else:
+            rep.ok(rule, "value_cmp duality", P.where(fn), "lhs and rhs views are both consumed with %s" % sorted(set(used[1])))
 
 
 # ---------------------------------------------------------------------------------------
@@ -541,6 +613,9 @@ EQONLY = {
     "<liquid_lib::stdlib::blocks::case_block::CaseOption>::evaluate": "case/when matches by ==",
 }
 FORBID_IDENTITY = ("to_kstr", "render", "source", "to_string", "hash", "type_name")
+FORBID_KIND_DISPATCH = ("as_scalar", "is_scalar", "as_array", "is_array", "as_object", "is_object", "as_state", "is_state", "is_nil",
+                        "query_state", "to_integer", "to_float")
+KIND_DISPATCH_FORBIDDEN_IN = ("<liquid_lib::stdlib::blocks::case_block::CaseOption>::evaluate",)
 FORBID_SETS = ("HashSet", "HashMap", "BTreeSet", "BTreeMap")
 
 
@@ -563,6 +638,9 @@ def run_eqonly(P, rep, rule="R-EQONLY"):
                         [P.tstr(fn.crate, a) for a in f["args"] if isinstance(a, int)]):
                     eqs += 1
                 if last in FORBID_IDENTITY and (f.get("trait", "").endswith(("ValueView", "ToString", "Hash"))):
+                    bad.append((fn, t["line"], f["name"]))
+                if key in KIND_DISPATCH_FORBIDDEN_IN and last in FORBID_KIND_DISPATCH and (
+                        f.get("trait", "").endswith("ValueView") or "ScalarCow" in f["name"]):
                     bad.append((fn, t["line"], f["name"]))
                 if any(x in f["name"] for x in FORBID_SETS) and last in ("insert", "contains", "contains_key", "get", "entry"):
                     bad.append((fn, t["line"], f["name"]))
